@@ -121,7 +121,7 @@ func (n *Node) Open() {
 	case "everything":
 		bopts = append(bopts, baseapp.SetPruning(pruningtypes.NewPruningOptions(pruningtypes.PruningEverything)))
 	case "custom":
-		bopts = append(bopts, baseapp.SetPruning(pruningtypes.NewCustomPruningOptions(3, 2)))
+		bopts = append(bopts, baseapp.SetPruning(pruningtypes.NewCustomPruningOptions(3, 10)))
 	default:
 		bopts = append(bopts, baseapp.SetPruning(pruningtypes.NewPruningOptions(pruningtypes.PruningDefault)))
 	}
